@@ -7,7 +7,7 @@ def hexB (s : String) : CBytes := (parseHex s).getD []
 def fieldNames : List (String × Field) :=
   [("port", .port), ("address", .addr), ("proxy", .proxy), ("pidfile", .pidfile), ("logfile", .logfile), ("loglevel", .loglevel),
    ("auditlog", .auditlog), ("cafile", .cafile), ("capath", .capath), ("aws", .detectAws), ("maxfiles", .maxFiles),
-   ("fg", .foreground), ("pprof", .pprof), ("nopid", .noPidfile), ("agent", .agent)]
+   ("fg", .foreground), ("pprof", .pprof), ("nopid", .noPidfile), ("agent", .agent), ("apptimeout", .appTimeout)]
 
 def dumpCfg (c : Cfg) : String :=
   joinSp (fieldNames.map (fun p => p.1 ++ "=" ++ toHex (c.get p.2)))
